@@ -24,7 +24,7 @@ Definition wit_total_inits : list (N * idict) := [(0, [(s_w, 1); (s_w1, 2)])].
 (* before fix 25cf9b5 this run ended with ValueError (C15_fix_total_refuted); now: input w kept, the
    duplicated initializer becomes w_2 (w_1 is reserved), w_1 keeps its name *)
 Lemma wit_total_now_ok :
-  let r := name_fix_pass wit_total_graph [] wit_total_vn (fun _ => None) wit_total_inits in
+  let r := name_fix_pass wit_total_graph [] (fun _ => 0) (fun _ => 0) wit_total_vn (fun _ => None) wit_total_inits in
   snd r = None /\ map (f_vn (fst r)) [0; 1; 2] = [Some s_w; Some [119; 95; 50]; Some s_w1] /\
   f_inits (fst r) = [(0, [(s_w1, 2); ([119; 95; 50], 1)])].
 Proof. vm_compute. auto. Qed.
@@ -35,7 +35,7 @@ Definition wit_keep_vn := of_alist None [(0, Some s_x); (1, Some s_x); (2, Some 
 
 (* before fix 25cf9b5: x, x, x_1 -> x, x_1, x_1_1 (C15_fix_keeps_unique_refuted); now the unique x_1 is kept *)
 Lemma wit_keep_now_ok :
-  let r := name_fix_pass wit_keep_graph [] wit_keep_vn (fun _ => None) [] in
+  let r := name_fix_pass wit_keep_graph [] (fun _ => 0) (fun _ => 0) wit_keep_vn (fun _ => None) [] in
   snd r = None /\ map (f_vn (fst r)) [0; 1; 2] = [Some s_x; Some [120; 95; 50]; Some s_x1].
 Proof. vm_compute. auto. Qed.
 
@@ -48,8 +48,22 @@ Definition wit_unsorted_vn := of_alist None [(0, Some [99]); (1, Some s_y); (2, 
 Definition wit_unsorted_nn := of_alist None [(0, Some [97]); (1, Some [98]); (2, Some [99]); (3, Some [100])].
 
 Lemma fix_post_unsorted_refuted :
-  let r := name_fix_pass wit_unsorted_graph [] wit_unsorted_vn wit_unsorted_nn [] in
+  let r := name_fix_pass wit_unsorted_graph [] (fun _ => 0) (fun _ => 0) wit_unsorted_vn wit_unsorted_nn [] in
   snd r = None /\ f_mod (fst r) = false /\
   In 1 (own_values wit_unsorted_graph) /\ In 4 (own_values wit_unsorted_graph) /\
   f_vn (fst r) 1 = f_vn (fst r) 4.
 Proof. vm_compute. repeat split; auto 10. Qed.
+
+(* (4) a function body that reads an initializer of the main graph (not valid ONNX: functions are closed):
+   the run over the function renames that initializer without having pre-scanned the main graph's keys *)
+Definition s_a : name := [97].  Definition s_a1 : name := [97; 95; 49].
+Definition wit_unclosed_main := Graph 0 false [] [] [].
+Definition wit_unclosed_func := Graph 1 true [2] [3] [Node 0 [Some 2; Some 0] [3] []].
+Definition wit_unclosed_vn := of_alist None [(0, Some s_a); (1, Some s_a1); (2, Some s_a); (3, Some [111])].
+Definition wit_unclosed_nn := of_alist None [(0, Some [110])].
+Definition wit_unclosed_inits : list (N * idict) := [(0, [(s_a, 0); (s_a1, 1)])].
+
+Lemma fix_total_unclosed_refuted :
+  snd (name_fix_pass wit_unclosed_main [wit_unclosed_func] (fun _ => 0) (fun _ => 0)
+         wit_unclosed_vn wit_unclosed_nn wit_unclosed_inits) = Some ValueError.
+Proof. vm_compute. reflexivity. Qed.
